@@ -172,7 +172,9 @@ def lib_wire(s):
     return '|'.join([wire(D['ds']._latex_today()), t_up, t_nfc])
 
 USERDB_DOCS = ['Some \\emph{important} text.', '\\emph', '\\textbf\\emph{x}', '$a~\\emph{b}$ \\begin{quote}q\\end{quote}',
-               '\\begin{center}c \\textit{i}\\end{center}~\\alpha\\beta x', '\\textbf', '\\begin{center}', '~~', '\\emph{\\textbf{\\textit{}}}']
+               '\\begin{center}c \\textit{i}\\end{center}~\\alpha\\beta x', '\\textbf', '\\begin{center}', '~~', '\\emph{\\textbf{\\textit{}}}',
+               'See \\cite{key}. \\gamma\\delta\\epsilon', '\\begin{figure}f\\end{figure} a & b \'\' c---d', '\\begin{table}[h]t\\end{table}\\begin{verse}v\\end{verse}',
+               '\\begin{figure}', '\\textbf\\cite', '$\\gamma & \\begin{figure}\\end{figure}$']
 
 def to_line(c):
     if c.get('deep') or c.get('userdb') or c.get('legacy') or c.get('subclass') or c.get('inputdir') is not None:
@@ -221,6 +223,16 @@ def _repl_fn(tag, node):
 def _repl_fn2(tag, n, l2tobj):
     return '[%s %s]' % (tag, l2tobj.nodelist_to_text([a for a in (n.nodeargd.argnlist if n.nodeargd else []) if a is not None]))
 
+def _repl_generic(node, l2tobj, macroname=None, environmentname=None, specials_chars=None):
+    """one formatter shared by macro, environment and specials specs: its signature names all three documented keywords,
+    each of which is passed only for its own kind of node"""
+    return '<%s|%s|%s>' % (macroname, environmentname, specials_chars)
+
+def _repl_own_m(node, macroname): return 'm:' + macroname
+def _repl_own_e(node, environmentname, l2tobj): return 'e:' + environmentname
+def _repl_own_s(node, specials_chars): return 's:' + specials_chars
+def _repl_kw(node, **kwargs): return 'kw:' + ','.join(sorted(kwargs))
+
 _USERDB = []
 def user_textdb():
     """the default text database extended the documented way with replacement callables of every kind Python offers:
@@ -235,10 +247,16 @@ def user_textdb():
                     latex2text.MacroTextSpec('textbf', simplify_repl=functools.partial(_repl_fn, 'bf')),
                     latex2text.MacroTextSpec('alpha', simplify_repl=lambda n: 'A'),
                     latex2text.MacroTextSpec('beta', simplify_repl=functools.partial(lambda n: 'B')),
-                    latex2text.MacroTextSpec('textit', simplify_repl=inst.__call__)],
+                    latex2text.MacroTextSpec('textit', simplify_repl=inst.__call__),
+                    latex2text.MacroTextSpec('gamma', simplify_repl=_repl_generic), latex2text.MacroTextSpec('cite', simplify_repl=_repl_generic),
+                    latex2text.MacroTextSpec('delta', simplify_repl=_repl_own_m), latex2text.MacroTextSpec('epsilon', simplify_repl=_repl_kw)],
             environments=[latex2text.EnvironmentTextSpec('center', simplify_repl=inst),
-                          latex2text.EnvironmentTextSpec('quote', simplify_repl=functools.partial(_repl_fn, 'quote'))],
+                          latex2text.EnvironmentTextSpec('quote', simplify_repl=functools.partial(_repl_fn, 'quote')),
+                          latex2text.EnvironmentTextSpec('figure', simplify_repl=_repl_generic), latex2text.EnvironmentTextSpec('table', simplify_repl=_repl_own_e),
+                          latex2text.EnvironmentTextSpec('verse', simplify_repl=_repl_kw)],
             specials=[latex2text.SpecialsTextSpec('~', simplify_repl=functools.partial(_repl_fn, 'tilde')),
+                      latex2text.SpecialsTextSpec('&', simplify_repl=_repl_generic), latex2text.SpecialsTextSpec("''", simplify_repl=_repl_own_s),
+                      latex2text.SpecialsTextSpec('---', simplify_repl=_repl_kw),
                       latex2text.SpecialsTextSpec('--'), latex2text.SpecialsTextSpec('``', simplify_repl='')])    # constructor default: no replacement
         _USERDB.append(db)
     return _USERDB[0]
@@ -375,7 +393,8 @@ def cases(tier, rng):
             yield {'s': s, 'o': dict(DEFAULT_OPTS), 'legacy': leg}
         yield {'s': s, 'o': dict(DEFAULT_OPTS), 'userdb': True}
     for _ in range(300 if quick else 6000):
-        s = gen.soup(rng, gen.ATOMS_DEFAULT + ['--', '``', '\\emph', '\\textbf', '\\textit', '\\alpha', '\\beta', '\\begin{center}', '\\end{center}', '\\begin{quote}', '\\end{quote}', '~'], 7)
+        s = gen.soup(rng, gen.ATOMS_DEFAULT + ['--', '``', '\\emph', '\\textbf', '\\textit', '\\alpha', '\\beta', '\\begin{center}', '\\end{center}', '\\begin{quote}', '\\end{quote}', '~',
+                                                 '\\gamma', '\\cite', '\\delta', '\\epsilon', '\\begin{figure}', '\\end{figure}', '\\begin{table}', '\\end{table}', '&', "''", '---'], 7)
         yield {'s': s, 'o': rand_opts(rng), 'userdb': True}
     # (a) bounded-exhaustive atom strings
     k_core = 3 if quick else 4
